@@ -45,6 +45,31 @@ def emit_histories(which, maxlen):
     return [[x["c"] for x in h["hist"]] for h in hs], r
 
 
+def closure(which):
+    """The complete automaton, not a bounded set of histories: with VIEW ClosureView (the automaton state without the
+    history) TLC stops when every reachable automaton state has been found, so the model-level invariants hold for call
+    histories of any length over the vocabulary.  -> (shortest history per automaton state, every transition of the
+    automaton as 'shortest history + one more call', TLC result)."""
+    cfg = tlc.write_cfg(f"""SPECIFICATION Spec
+CONSTANTS
+  Which = "{which}"
+  MaxLen = 1000
+  EMIT = TRUE
+VIEW ClosureView
+INVARIANT EmitClosure
+{MC_INVARIANTS}
+CHECK_DEADLOCK FALSE
+""")
+    r = tlc.run("MC_Builders.tla", cfg, workers=1, timeout=3000)
+    tlc.require_ok(r, f"closure of the {which} automaton")
+    cs = r.printed.get("CLOS", [])
+    if len(cs) != r.distinct or not cs:
+        raise tlc.MachineryError(f"closure of {which}: emitted {len(cs)} states, TLC found {r.distinct}")
+    states = [[x["c"] for x in c["hist"]] for c in cs]
+    trans = [[x["c"] for x in c["hist"]] + [call] for c in cs for call in c["calls"]]
+    return states, trans, r
+
+
 def simulate_histories(which, depth, num, seed):
     """Longer behaviours of the automaton: tlc -simulate; only maximal histories are kept."""
     r = tlc.run("MC_Builders.tla", _cfg(which, depth, True), workers=1, timeout=3000,
